@@ -28,8 +28,11 @@ Bad(c) ==
 \* (entries left in ctx.visited after the call are per-call state: unobservable, so only DRIFT)
 Drift(c) ==
   LET m == WRun(c.graph, c.fault, WInit(c.root))
-  IN c.residue # 0 \/ m.out # Toks(c.obs) \/ [i \in 1..Len(m.log) |-> <<m.log[i][1], m.log[i][2]>>]
-                              # [i \in 1..Len(c.log) |-> <<c.log[i][1], c.log[i][2]>>]
+  IN (~c.lazy /\ c.residue # 0) \/ m.out # Toks(c.obs)     \* (the lazy rendering works on a COPY of the visited set)
+     \* c.lazy: some node is reached through comment(): as a dict value it is rendered a second time during
+     \* layout (with a copy of the visited set), which the visit-bracket machine does not transcribe
+     \/ (~c.lazy /\ [i \in 1..Len(m.log) |-> <<m.log[i][1], m.log[i][2]>>]
+                       # [i \in 1..Len(c.log) |-> <<c.log[i][1], c.log[i][2]>>])
 
 Report == PrintT(<<"DONE", Cases[cs].id, Bad(Cases[cs]), Drift(Cases[cs])>>)
 =============================================================================
